@@ -58,6 +58,9 @@ func (vertex *Vertex) Validate() error {
 	if vertex.Label == "" {
 		return errors.New("'label' cannot be blank")
 	}
+	if strings.ContainsRune(vertex.Gid, 0) || strings.ContainsRune(vertex.Label, 0) {
+		return errors.New("'gid' and 'label' cannot contain a NUL byte")
+	}
 	for k := range vertex.GetDataMap() {
 		err := ValidateFieldName(k)
 		if err != nil {
@@ -121,6 +124,10 @@ func (edge *Edge) Validate() error {
 	if edge.To == "" {
 		return errors.New("'to' cannot be blank")
 	}
+	if strings.ContainsRune(edge.Gid, 0) || strings.ContainsRune(edge.Label, 0) ||
+		strings.ContainsRune(edge.From, 0) || strings.ContainsRune(edge.To, 0) {
+		return errors.New("'gid', 'label', 'from' and 'to' cannot contain a NUL byte")
+	}
 	for k := range edge.GetDataMap() {
 		err := ValidateFieldName(k)
 		if err != nil {
@@ -157,6 +164,9 @@ func ValidateFieldName(k string) error {
 }
 
 func validate(k string) error {
+	if strings.ContainsRune(k, 0) {
+		return errors.New(`cannot contain a NUL byte`)
+	}
 	if strings.ContainsAny(k, `!@#$%^&*()+={}[] :;"',.<>?/\|~`) {
 		return errors.New(`cannot contain: !@#$%^&*()+={}[] :;"',.<>?/\|~`)
 	}
